@@ -86,6 +86,9 @@ def cipher_facts(run):
     def block_size(ex, st, o, a):
         c = o.conc()
         if c is None:
+            cs = ex.concretize(st, o.z, 1)
+            c = cs[0] if cs and len(cs) == 1 else None
+        if c is None:
             raise E.ToolLimit('block size of a symbolic cipher')
         return [(st, VInt(64 if c in (1, 2, 3, 4) else 128))]
     run.hook('pgpy.constants.SymmetricKeyAlgorithm', 'block_size', block_size)
